@@ -202,6 +202,23 @@ theorem slice_str_tie (l start stop : Int) (hl : 0 ≤ l) (hl' : l ≤ 2 ^ 62) (
   repeat' split
   transl_close
 
+/-- [C09, C11] the two rune loops of `slice` on strings are entered with `0 ≤ start ≤ l` and `stop ≤ l`, `l` the
+code-point count: however large the bounds, the loops run at most `l` times each -/
+theorem slice_str_safe (l start stop a b : Int) (hl : 0 ≤ l) (hl' : l ≤ 2 ^ 62) (h1 : InRange start)
+    (h2 : InRange stop) (h : viewSliceStr (T.slice_str start stop l) = some (some (a, b))) :
+    0 ≤ a ∧ a ≤ l ∧ b ≤ l := by
+  simp only [InRange, MaxInt, MinInt] at h1 h2
+  unfold T.slice_str at h
+  dsimp only at h
+  simp only [apply_ite viewSliceStr] at h
+  simp only [viewSliceStr] at h
+  repeat' split at h
+  all_goals first
+    | (simp at h; done)
+    | (simp at h; omega)
+    | ((try simp (disch := omega) only [wneg_eq] at *) <;>
+       (try simp (disch := omega) only [wadd_eq, wsub_eq, wneg_eq] at *) <;> simp at h <;> omega)
+
 /- prune the decision tree of `sliceStep` on the tests of the incoming `step` and `start` before splitting the rest:
 the whole tree is too large for one `split` -/
 set_option hygiene false in
